@@ -1,38 +1,11 @@
-(* The executable side of the correspondence check: for every case line produced by the
-   Go harness, evaluate the model on the same input and compare with the observed
-   outcome ("corr" messages), and evaluate the property's own checker on the observed
-   outcome ("prop" messages).  Extracted to OCaml; also runs inside Coq by vm_compute. *)
+(* Driver: C17 (orderings, containers, schema equality) and C15 (set algebra). *)
 From Coq Require Import List ZArith String Ascii Bool Arith.
 From SMD Require Import Base.Search Base.Sexp Model.Value Model.Order Model.PathElem
-  Model.PathSet Model.Schema Model.Walk Model.Matcher Model.Codec Spec.PathsAsSets.
+  Model.PathSet Model.Schema Model.Walk Model.Matcher Model.Codec Spec.PathsAsSets Driver.Common.
 Import ListNotations.
 Open Scope string_scope.
 Open Scope bool_scope.
 Infix "@@" := (@app string) (at level 60, right associativity).
-
-Record outcome : Type := mkOut {
-  o_msgs : list string;   (* empty = the case passed *)
-  o_evals : nat;          (* elementary evaluations in this case *)
-  o_nt : nat;             (* how many of them are non-trivial by the property's rule *)
-  o_tags : list string    (* branch / distribution tags *)
-}.
-
-Definition out_bad (m : string) : outcome := mkOut ["bad-case " ++ m] 0 0 [].
-Definition chk (b : bool) (m : string) : list string := if b then [] else [m].
-Definition count {A} (f : A -> bool) (l : list A) : nat := List.length (filter f l).
-
-Definition cmp_eqb (a b : comparison) : bool :=
-  match a, b with Lt, Lt | Eq, Eq | Gt, Gt => true | _, _ => false end.
-
-Fixpoint forallb2 {A B} (f : A -> B -> bool) (a : list A) (b : list B) : bool :=
-  match a, b with
-  | [], [] => true
-  | x :: xs, y :: ys => f x y && forallb2 f xs ys
-  | _, _ => false
-  end.
-
-Fixpoint zip_with_index {A} (n : nat) (l : list A) : list (nat * A) :=
-  match l with [] => [] | x :: t => (n, x) :: zip_with_index (S n) t end.
 
 (* ------------------------------------------------------------------ *)
 (* C17: comparison matrices                                            *)
@@ -279,19 +252,3 @@ Definition run_c15_setops (xs : list sexp) : outcome :=
   | _ => out_bad "setops arity"
   end.
 
-(* ------------------------------------------------------------------ *)
-(* dispatch                                                            *)
-
-Record dstate : Type := mkDS { ds_schemas : list (string * (schema * sexp)) }.
-Definition ds_init : dstate := mkDS [].
-
-Definition run_case (st : dstate) (x : sexp) : dstate * outcome :=
-  match x with
-  | SList [SAtom "c17.matrix"; SAtom kind; items; rows] => (st, run_c17_matrix kind items rows)
-  | SList [SAtom "c17.pes"; ins; univ; iter; has] => (st, run_c17_pes ins univ iter has)
-  | SList [SAtom "c17.pem"; ins; univ; gets] => (st, run_c17_pem ins univ gets)
-  | SList [SAtom "c17.schemaeq"; a; b; obs] => (st, run_c17_schemaeq a b obs)
-  | SList (SAtom "c15.setops" :: xs) => (st, run_c15_setops xs)
-  | SList (SAtom op :: _) => (st, out_bad ("unknown op " ++ op))
-  | _ => (st, out_bad "not a case")
-  end.
